@@ -21,7 +21,7 @@ TRUSTED = [
     "translator/patterns.py (shipped header patterns -> Gen/Languages.lean)",
     "modelled, not verified: str.lower()/str.strip() on comment texts are modelled on code points (ASCII lowering, the 29 Unicode blanks); checked on generated comment texts incl. non-ASCII",
 ]
-ASSUMPTIONS = ["marker comments are single-line comments that start on the line of the function's name (DESIGN.md Appendix A)"]
+ASSUMPTIONS = ["a marker comment sits on the line of the function's name when it STARTS there (single-line comments, and block comments closed on a later line)"]
 regen = C15.regen
 
 MARK = {"Python": ["# nocl", "#nocl", "# NOCL", "#  NoCl because", "#\tnocl", "# \xa0nocl"],
@@ -93,6 +93,44 @@ def independent(o):
 GAPS = ["  ", "  ", "  ", " ", "\t", " \x0c", "\x0b", "\x1c ", "\x1d", " \x1e", "\x85", "\u2028", " \u2029 ", "\xa0", "\u3000 "]
 
 
+def spacing_rungs(ctx):
+    """ladder for every "run of blanks" dimension (behind the comment leader, between code and comment, in front of the
+    closing `*/`, in front of a comment-only line): geometric rungs plus n-1, n, n+1, 2n for every integer literal that
+    is new in the source under check"""
+    from gen import srcdict
+    base = ctx.pick([0, 1, 2, 3, 4, 8, 10, 16, 32, 100, 1000], [0, 1, 2, 3, 4, 8, 10, 16, 32, 100, 1000, 10 ** 4, 10 ** 5])
+    return sorted(set(base) | set(srcdict.novel_rungs(1, ctx.pick(5000, 200000))))
+
+
+def blank_run(n, rnd):
+    """n blanks: spaces, tabs or a mixture"""
+    kind = rnd.choice(["space", "space", "tab", "mixed"])
+    if kind == "space":
+        return " " * n
+    if kind == "tab":
+        return "\t" * n
+    return "".join(rnd.choice(" \t") for _ in range(n))
+
+
+def stretch(text, n, rnd, tail=None):
+    """the comment `text` with the run of blanks behind its leader replaced by a run of n blanks (and, for a closed
+    block comment, the run in front of `*/` by a run of `tail` blanks); its reading under the property is unchanged"""
+    for lead in ("//", "/*", "#", ";"):
+        if text.startswith(lead):
+            out = lead + blank_run(n, rnd) + text[len(lead):].lstrip(" \t")
+            if tail is not None and lead == "/*" and out.endswith("*/") and len(out) > 4 + n:
+                out = out[:-2].rstrip(" \t") + blank_run(tail, rnd) + "*/"
+            assert spec_is_nocl(out) == spec_is_nocl(text), (text, out)
+            return out
+    return text
+
+
+# marker comments that start on the name line and are closed on a later line (%s: the marker word or, in the
+# same-layout original, another word); the last one opens with a line break (blanks in the sense of str.strip)
+MULTILINE = ["/* %s - trivial accessor,\n       kept for compatibility */", "/* %s\n */", "/*%s: generated\n * do not edit\n */", "/*\t%s because\n\n*/",
+             "/* %s */ /* and\n more */", "/*\n   %s */"]
+
+
 def with_comments(o, marks, gaps=None, inline=None):
     """text of the program with `<gap><comment>` appended to the given (1-based) lines (gap: two blanks unless `gaps`
     names another one for the line); `inline`: {line: (index, character)} - one blank of that line replaced"""
@@ -136,6 +174,8 @@ def inline_separators(o, lang, funcs, rnd, share=0.35):
 
 def variants(ctx):
     rnd = ctx.rng("mark")
+    import itertools
+    _turn = itertools.count(rnd.randrange(100))
     out = []   # (lang, original text, variant text, removed names+starts, kind)
     for (lang, _text, o) in scan_streams.canonical(ctx, ctx.pick(120, 2500), "c17", stubs=True):
         orig = with_comments(o, {})
@@ -158,6 +198,27 @@ def variants(ctx):
             out.append((lang, with_comments(o, {}, None, inline), with_comments(o, marks, gaps, inline), removed, "mark-separators"))
         chosen = rnd.sample(ind, rnd.randint(1, len(ind)))
         out.append((lang, orig, with_comments(o, {f.markable: decoy_text(fam, rnd) for f in chosen}, {f.markable: rnd.choice(GAPS) for f in chosen}), set(), "decoy"))
+        # spacing ladder: every run of blanks of a marker / decoy comment (behind the leader, in front of the comment,
+        # in front of `*/`) at a rung of the ladder, the rungs taken in turn over programs and functions
+        rungs = spacing_rungs(ctx)
+        nxt = lambda: rungs[next(_turn) % len(rungs)]
+        chosen = rnd.sample(ind, rnd.randint(1, len(ind)))
+        marks = {f.markable: stretch(mark_text(fam, rnd), nxt(), rnd, rnd.choice(rungs)) for f in chosen}
+        gaps = {f.markable: blank_run(rnd.choice(rungs[1:]), rnd) for f in chosen}
+        out.append((lang, orig, with_comments(o, marks, gaps), {(f.name, f.start[0], f.start[1]) for f in chosen}, "mark-spacing"))
+        chosen = rnd.sample(ind, rnd.randint(1, len(ind)))
+        out.append((lang, orig, with_comments(o, {f.markable: stretch(decoy_text(fam, rnd), nxt(), rnd, rnd.choice(rungs)) for f in chosen},
+                                              {f.markable: blank_run(rnd.choice(rungs[1:]), rnd) for f in chosen}), set(), "decoy-spacing"))
+        # marker comments that span several lines: a block comment that starts on the name line and is closed on a
+        # later line; compared with the same layout whose comment says another word instead of the marker
+        if fam == "brace":
+            chosen = rnd.sample(ind, rnd.randint(1, len(ind)))
+            forms = {f.markable: (rnd.choice(MULTILINE), rnd.choice(["nocl", "NOCL", "NoCl", "nocl"]), nxt() if rnd.random() < 0.3 else None) for f in chosen}
+            marked = {ln: (form % w if n is None else stretch(form % w, n, common.rng("c17ml", ln, n))) for ln, (form, w, n) in forms.items()}
+            plain = {ln: (form % "note" if n is None else stretch(form % "note", n, common.rng("c17ml", ln, n))) for ln, (form, w, n) in forms.items()}
+            extra = {ln: text.count("\n") for ln, text in marked.items()}
+            sh = lambda l: l + sum(k for ln, k in extra.items() if ln < l)
+            out.append((lang, with_comments(o, plain), with_comments(o, marked), {(f.name, sh(f.start[0]), f.start[1]) for f in chosen}, "mark-multiline"))
         # a REAL marker comment on a line that is not the name's line changes nothing: the other
         # lines of a multi-line header, the first body line, the closing line, a comment-only
         # line directly above or below the name line
@@ -196,7 +257,7 @@ def _correspond_programs(ctx):
     vm = sr.model_scan_many([sr.scan_request(l, v) for (l, _, v, _, _) in vs])
     dis, fails = [], []
     nontrivial = set()
-    dist = {"mark": 0, "mark-separators": 0, "decoy": 0, "marker-elsewhere": 0, "marker-line-above": 0, "functions_removed": 0,
+    dist = {"mark": 0, "mark-separators": 0, "decoy": 0, "mark-spacing": 0, "decoy-spacing": 0, "mark-multiline": 0, "spacing_rungs": spacing_rungs(ctx), "marker-elsewhere": 0, "marker-line-above": 0, "functions_removed": 0,
             "separator_between_name_and_marker": sum(1 for (_, _, v, _, k) in vs if k == "mark-separators" and any(c in v for c in scan_streams.SEPARATORS))}
     for (lang, orig, v, removed, kind), r, m in zip(vs, vr, vm):
         inp = {"stream": "program", "language": lang, "original": orig, "variant": v, "removed": sorted(removed) if isinstance(removed, set) else list(removed)}
@@ -230,6 +291,13 @@ def _correspond_programs(ctx):
     for fam in ("Python", "brace"):
         marks, decoys, _ = dictionary_pools(fam)
         texts += marks + decoys
+    # spacing ladder on comment texts: every leader x every rung x marker / non-marker bodies
+    n0 = len(texts)
+    for n in spacing_rungs(ctx):
+        for lead in ("#", ";", "//", "/*"):
+            for body in ("nocl", "NOCL: why", "NoCl", "x nocl", "no cl"):
+                texts.append(lead + blank_run(n, rnd) + body + (blank_run(rnd.choice(spacing_rungs(ctx)), rnd) + "*/" if lead == "/*" else ""))
+    dist["spacing_ladder_texts"] = len(texts) - n0
     dist["dictionary_marker_texts"] = sum(len(dictionary_pools(f)[0]) for f in ("Python", "brace"))
     dist["dictionary_decoy_texts"] = sum(len(dictionary_pools(f)[1]) for f in ("Python", "brace"))
     model = common.run_driver(["nocl %s" % sr.sstr(t) for t in texts])
@@ -242,7 +310,7 @@ def _correspond_programs(ctx):
             fails.append({"input": {"stream": "text", "text": t}, "observed": i, "required": "marker recognised: %s" % want})
     return {
         "evaluations": len(vs) + len(texts), "distinct_nontrivial": len(nontrivial),
-        "rule": "marker and decoy texts also built from the string literals of the code under check (w, nocl w, nocl-w, nocl:w, NOCL=w, w nocl for literals new in the source and a sample of the others; sorted into markers / decoys by the property's reading), used on name lines, on other lines of the function, on comment-only lines above, and through the marker recogniser; canonical programs x random subsets of their independent functions marked on the name line, in every comment style / letter case / spacing of the marker (incl. tab, NBSP, EM SPACE after the leader); each marking also with other white space between code and comment (tab, NBSP, U+000B U+000C U+001C-E U+0085 U+2028 U+2029) and a separator character between the tokens or inside a string literal of the name line; plus decoy comments (marker word later in the text, doc-comment leaders); comment texts through the marker recogniser; non-trivial = distinct marked variants that remove at least one function",
+        "rule": "SPACING LADDER: every run of blanks of a marker / decoy comment (behind the comment leader, between code and comment, in front of `*/`; spaces, tabs, mixtures) at the rungs 0,1,2,3,4,8,10,16,32,100,1000 (thorough: up to 10^5) plus n-1,n,n+1,2n for every integer literal new in the source under check, on name lines of programs (mark-spacing / decoy-spacing) and through the marker recogniser; MULTI-LINE MARKERS: block comments that start on the name line and are closed on a later line (reason spread over lines, `*/` on its own line, a second comment behind a closed marker, marker behind a line break), compared with the same layout saying another word; marker and decoy texts also built from the string literals of the code under check (w, nocl w, nocl-w, nocl:w, NOCL=w, w nocl for literals new in the source and a sample of the others; sorted into markers / decoys by the property's reading), used on name lines, on other lines of the function, on comment-only lines above, and through the marker recogniser; canonical programs x random subsets of their independent functions marked on the name line, in every comment style / letter case / spacing of the marker (incl. tab, NBSP, EM SPACE after the leader); each marking also with other white space between code and comment (tab, NBSP, U+000B U+000C U+001C-E U+0085 U+2028 U+2029) and a separator character between the tokens or inside a string literal of the name line; plus decoy comments (marker word later in the text, doc-comment leaders); comment texts through the marker recogniser; non-trivial = distinct marked variants that remove at least one function",
         "samples": [{"language": l, "removed": sorted(rm), "variant_tail": v[-160:]} for (l, _, v, rm, k) in vs[:2]],
         "exhaustive": False, "distribution": dist,
         "disagreements": dis[:50], "oracle_failures": fails[:50],
